@@ -351,6 +351,7 @@ func runC11(c *Ctx) {
 		}
 		ruleCounterWidth(c, cw)
 		ruleLCSDiagonal(c)
+		ruleSizeGuard(c, "slice")
 	}
 	// which parameters of the builder receive EditScript's lhs and rhs
 	li, ri := -1, -1
